@@ -152,9 +152,17 @@ def _post_dist(name, vd, out):
         return
     m, S = _expected_qu(name, vd)
     with torch.no_grad():
-        ctx.close("qu_encodes_parameters", out.mean, m, "direct", cls="qu:" + name + ":mean")
+        tol = "direct"
+        if name in ("NaturalVariationalDistribution", "TrilNaturalVariationalDistribution") and S is not None:
+            # the natural parameters hold the PRECISION: both sides invert it and lose cond * eps digits (a random update can
+            # leave it nearly singular: covariance entries of 1e9 were seen, thorough seed 0) - 1e-8 up to cond 1e6, then
+            # proportional, capped at 1e-4
+            cond = float(torch.linalg.cond(S).max())
+            rt = min(max(1e-8, 1e-14 * cond), 1e-4)
+            tol = (rt, rt)
+        ctx.close("qu_encodes_parameters", out.mean, m, tol, cls="qu:" + name + ":mean")
         if S is not None:
-            ctx.close("qu_encodes_parameters", out.covariance_matrix, S, "direct", cls="qu:" + name + ":cov")
+            ctx.close("qu_encodes_parameters", out.covariance_matrix, S, tol, cls="qu:" + name + ":cov")
 
 
 def _randomize_vd(vd, name, g):
